@@ -266,3 +266,29 @@ pub fn hex_after_first_star(line: &[u8]) -> Option<u32> {
     }
     Some(v as u32)
 }
+
+/// C02's relation read on an arbitrary line: after an optional well-formed tag block and a start
+/// delimiter there is a '*', it is followed by hex digits, and their value (first eight) equals the
+/// XOR of the bytes between the delimiter and that first '*'.
+pub fn checksum_relation_holds(line: &[u8]) -> bool {
+    let mut s = line;
+    if s.first() == Some(&b'\\') {
+        match s[1..].iter().position(|&c| c == b'\\') {
+            Some(close) => s = &s[1 + close + 1..],
+            None => return false,
+        }
+    }
+    if !matches!(s.first(), Some(b'!') | Some(b'$')) {
+        return false;
+    }
+    let body = &s[1..];
+    let star = match body.iter().position(|&c| c == b'*') {
+        Some(p) => p,
+        None => return false,
+    };
+    let x = body[..star].iter().fold(0u8, |a, &b| a ^ b);
+    match hex_after_first_star(line) {
+        Some(v) => v == x as u32,
+        None => false,
+    }
+}
